@@ -4,7 +4,7 @@ use crate::{
     model::{
         Namespace, rust_str,
         field::as_field_name,
-        structures::xml_name_to_rust_name,
+        structures::{RustType, element::ElementType, xml_name_to_rust_name},
         helpers::{write_check_restrictions_footer, write_check_restrictions_header},
     },
     reader::WriteXml,
@@ -89,6 +89,18 @@ where
     Ok(())
 }
 
+/// A global element declared with a builtin type (`<element name="echo" type="xs:string"/>`) is only an alias in the
+/// generated code; the derive macros have to see the builtin itself to treat the member as text.
+fn builtin_of_element(node: &crate::model::node::RustNode) -> Option<String> {
+    match &node.rust_type {
+        RustType::Element(props) => match &props.element_type {
+            ElementType::RustType(rust_type) if !rust_type.is_other() => Some(rust_type.to_string()),
+            _ => None,
+        },
+        _ => None,
+    }
+}
+
 fn write_soap_operation<W>(
     writer: &mut W,
     envelope_name: &str,
@@ -137,7 +149,9 @@ where
             }
 
             // todo: we should check if the "mustUnderstand" == 1 to make the field required
-            if let Some(namespace) = header.in_namespace.as_ref() {
+            if let Some(builtin) = builtin_of_element(header) {
+                writeln!(writer, "    pub {field_name}: Option<{builtin}>,",)?;
+            } else if let Some(namespace) = header.in_namespace.as_ref() {
                 let mod_name = namespace.rust_mod_name.as_str();
                 writeln!(writer, "    pub {field_name}: Option<{mod_name}::{rust_type}>,",)?;
             } else {
@@ -184,7 +198,11 @@ where
             "    #[yaserde(prefix = \"{abbreviation}\", rename = \"{}\")]",
             rust_str(xml_name)
         )?;
-        writeln!(writer, "    pub {body_field_name}: {mod_name}::{body},",)?;
+        if let Some(builtin) = builtin_of_element(&soap_operation.body) {
+            writeln!(writer, "    pub {body_field_name}: {builtin},",)?;
+        } else {
+            writeln!(writer, "    pub {body_field_name}: {mod_name}::{body},",)?;
+        }
     } else {
         writeln!(writer, "    #[yaserde(rename = \"{}\")]", rust_str(xml_name))?;
         writeln!(writer, "    pub {body_field_name}: {body},")?;
